@@ -235,6 +235,9 @@ impl Bitstr {
 // Rext: position of the first differing bit, only reported inside the MatchError (iterator chain `bits().zip().position()`)
 #[verifier::external_body] fn verif_mismatch_pos(s: &Bitstr, pat: &Bitstr) -> usize { unimplemented!() }
 //@use cursor.fns ::word_magic
+// `Cell::Str(Xstr::from(x))` (src/cell.rs): ASSUMED one-liner over the arcstr conversion
+impl From<String> for Cell { #[verifier::external_body] fn from(x: String) -> (r: Cell) ensures r is Str && xstr_chars(r->Str_0) == x@ { unimplemented!() } }
+//@use cursor.fns ::bitstr_to_hex
 
 // ---- nulbytestr: the bytes up to and including the first zero byte
 spec fn byte_zero(v: Seq<bool>, k: int) -> bool {
